@@ -78,7 +78,15 @@ def spline_cases(ctx):
 
 
 def correspondence(ctx):
-    gen = torch.Generator().manual_seed(ctx.seed * 17 + 17)
+    """thorough tier: several independent generator seeds (the quick tier runs one)"""
+    for rep in range(1 if ctx.quick() else 6):
+        _correspondence_once(ctx, rep)
+        if ctx.elapsed() > 1500:
+            break
+
+
+def _correspondence_once(ctx, rep=0):
+    gen = torch.Generator().manual_seed(ctx.seed * 17 + 17 + 104729 * rep)
     reqs, metas = [], []
     for (name, build, inverse, prec, b, kind, pos, x) in nonlin_cases(ctx):
         t = build()
